@@ -19,6 +19,7 @@ type FuncReport struct {
 	Infeasible int
 	Error   string // execution error => outside subset / undecided
 	Notes   []string
+	vc      *VC
 }
 
 func hasProp(props []string, id string) bool {
@@ -508,6 +509,19 @@ func (vc *VC) verifyRun(fn *ssa.Function, fc *FuncContract, key, caseName string
 		}
 	}
 	entry := st.Clone()
+	if vc.dry == 0 {
+		if vc.entries == nil {
+			vc.entries = map[string]*replayEntry{}
+		}
+		ent := &replayEntry{fn: fn, fc: fc, caseName: caseName, st: entry, pkg: fn.Pkg, mode: vc.mode.Name}
+		for i, p := range fn.Params {
+			ent.params = append(ent.params, replayParam{Name: p.Name(), T: p.Type(), V: args[i]})
+		}
+		for _, g := range fc.Ghosts {
+			ent.ghosts = append(ent.ghosts, replayParam{Name: g.Name, T: vc.eng.lookupType(fn.Pkg, g.Type), V: top.ghost[g.Name]})
+		}
+		vc.entries[vc.curFunc] = ent
+	}
 	vc.eng.forceInline[fn] = true
 	outs := vc.callFunctionTop(fn, args, bind, st, top, entry)
 	delete(vc.eng.forceInline, fn)
@@ -689,6 +703,21 @@ func (vc *VC) proveLemma(lm *Lemma) (rep *FuncReport) {
 		}
 	}
 	bound := map[string]SV{}
+	lent := &replayEntry{lemma: lm, pkg: lm.Pkg, mode: vc.mode.Name}
+	defer func() {
+		lent.st = st.Clone()
+		for _, p := range lm.Params {
+			rp := replayParam{Name: p.Name, V: bound[p.Name].V, T: bound[p.Name].T}
+			if p.Type == "mathint" || p.Type == "mathreal" {
+				rp.Spec = p.Type
+			}
+			lent.params = append(lent.params, rp)
+		}
+		if vc.entries == nil {
+			vc.entries = map[string]*replayEntry{}
+		}
+		vc.entries[key] = lent
+	}()
 	for _, p := range lm.Params {
 		switch p.Type {
 		case "mathint":
